@@ -138,8 +138,9 @@ def install(w, spec, table, collecting):
 
     def axioms(s, self, node, is_mixed_content, errs):
         d = {"init": z3.And(sp.ST_LO(0) == sp.dlo.init, sp.ST_HI(0) == sp.dhi.init), "dead": sp.dead_lemma(s, node), "range": sp.range_axiom()}
-        for i, a in enumerate(sp.delta_axioms()):
-            d[f"delta{i}"] = a
+        if getattr(sp, "_delta_conj", None) is None:
+            sp._delta_conj = z3.And(*sp.delta_axioms())
+        d["delta"] = sp._delta_conj
         return d
 
     def rejected(s0, node):
@@ -175,7 +176,23 @@ def install(w, spec, table, collecting):
         return rejected(s, node)
 
     # ---- shared invariant pieces ----------------------------------------------------------------------------------------
+    _cache = {}
+
+    def cached(tag, terms, build):
+        key = (tag,) + tuple(t.get_id() if z3.is_expr(t) else t for t in terms)
+        hit = _cache.get(key)
+        if hit is None:
+            if len(_cache) > 20000:
+                _cache.clear()
+            hit = (build(), terms)      # the terms are kept alive so that their ids stay valid
+            _cache[key] = hit
+        return hit[0]
+
     def names_inv(s0, s, L, node, upto=None):
+        return cached("names", (s.arr("llen"), s.arr("lelem"), s0.arr("F:_name"), s0.arr("lelem"), s0.arr("F:_children"), s0.arr("llen"), L, node,
+                                upto if upto is not None else 0, upto is None), lambda: _names_inv(s0, s, L, node, upto))
+
+    def _names_inv(s0, s, L, node, upto=None):
         j = z3.Int("nm_j")
         n = n_of(s0, node) if upto is None else upto
         return z3.And(s.len(L) == n, kind(L) == KIND_LIST,
@@ -291,6 +308,9 @@ def install(w, spec, table, collecting):
         return z3.IntVal(x) if isinstance(x, int) else x
 
     def no_foreign(s0, node):
+        return cached("nf", (s0.arr("F:_name"), s0.arr("lelem"), s0.arr("F:_children"), s0.arr("llen"), node), lambda: _no_foreign(s0, node))
+
+    def _no_foreign(s0, node):
         j = z3.Int("nf_j")
         return smt.FA([j], z3.Implies(z3.And(0 <= j, j < n_of(s0, node)), sp.sym(s0, node, j) != sp.other), patterns=[s0.at(s0.kids(node), j)])
 
